@@ -151,7 +151,9 @@ def run_chunk(binary, engine, seed, tier, lo, hi, scratch, idx, maxprocs="1", ha
             elif ln.get("t") == "summary":
                 sums.append(ln)
                 got_summary = True
-        if rc == 2 or "HARNESS-ERROR" in err:
+        # (status 2 alone is not a harness error: it is also how the Go runtime ends a process whose goroutine panicked —
+        # e.g. a goroutine the code under test started itself. The harness marks its own errors.)
+        if "HARNESS-ERROR" in err or "sim.HarnessError" in err:
             raise Harness("worker reported a harness error:\n" + err[-3000:])
         if got_summary and rc == 0:
             break
@@ -195,7 +197,7 @@ def replay_once(binary, trace, scratch, tag, showlog=False, maxprocs="1", extra_
     wal = path + ".wal"
     rc, lines, err, out = run_worker(binary, {"mode": "replay", "engine": trace["engine"], "trace": path, "showlog": showlog, "wal": wal, "repeat": repeat},
                                      timeout=600, maxprocs=maxprocs, extra_env=extra_env)
-    if rc == 2 or "HARNESS-ERROR" in err:
+    if "HARNESS-ERROR" in err or "sim.HarnessError" in err:
         raise Harness("harness error during replay:\n" + err[-3000:])
     for ln in lines:
         if ln.get("t") == "replay":
